@@ -147,8 +147,9 @@ theorem C03_flip (cfg : Cfg) (s s' : St) (hr : Reach cfg s) (m : Nat) (c : Ch) (
     (h : accept cfg s (.markD m c pos) = some s') :
     ∃ rs idx, (s.msg m).chan c = some rs ∧ recIndex rs pos = some idx ∧
       ((c, idx) ∈ (s.msg m).delivered ∨ (c, idx) ∈ (s.msg m).noted) := by
-  have hinv := reach_inv cfg s hr
-  simp only [accept] at h
+  have hinv := inv_calm cfg s (reach_inv cfg s hr)
+  change acceptCore cfg s.calm _ = _ at h     -- `markD` is judged outside the crash window
+  simp only [acceptCore] at h
   split at h
   · cases h
   · split at h
@@ -225,7 +226,8 @@ tied to the code by trace replay.) -/
 theorem C03_paragraph_needs_report (cfg : Cfg) (s s' : St) (m : Nat) (bs : Bytes) (h : accept cfg s (.appendBounce m bs) = some s') :
     ∃ n ∈ s.notes, n.m = m ∧ (s'.msg m).noted = (n.c, n.idx) :: (s.msg m).noted ∧ s'.notes = s.notes.erase n ∧
       bs.take ([60] ++ sanitizeLF n.recip ++ [62, 58, 10]).length = [60] ++ sanitizeLF n.recip ++ [62, 58, 10] := by
-  simp only [accept] at h
+  change acceptCore cfg s.calm _ = _ at h
+  simp only [acceptCore] at h
   split at h
   · cases h
   · split at h
@@ -236,7 +238,7 @@ theorem C03_paragraph_needs_report (cfg : Cfg) (s s' : St) (m : Nat) (bs : Bytes
         cases h
         refine ⟨n, List.mem_of_find?_eq_some hn, ?_, ?_, rfl, by simpa using hg.2.2.1⟩
         · have := List.find?_some hn; simpa using this
-        · simp only [St.msg, St.upd, tabGet_set]; simp
+        · simp only [St.msg, St.upd, tabGet_set, St.calm_tab]; simp
       · cases h
 
 /-- **A channel file is unlinked only when everything in it is finished** (outside preprocessing):
@@ -246,7 +248,8 @@ theorem C03_unlink (cfg : Cfg) (s s' : St) (hr : Reach cfg s) (m : Nat) (c : Ch)
     ∃ rs, (s.msg m).chan c = some rs ∧ ∀ i, i < rs.length →
       ((c, i) ∈ (s.msg m).delivered ∨ (c, i) ∈ (s.msg m).noted) := by
   have hinv := reach_inv cfg s hr
-  simp only [accept] at h
+  change acceptCore cfg s.calm _ = _ at h
+  simp only [acceptCore, St.calm_msg] at h
   split at h
   · cases h
   · split at h
@@ -275,7 +278,8 @@ theorem C03_info_last (cfg : Cfg) (s s' : St) (hr : Reach cfg s) (m : Nat) (send
       (c, i) ∈ (s.msg m).delivered ∨
       ((c, i) ∈ (s.msg m).noted ∧
         (((c, i) ∈ (s.msg m).bounced ∧ (c, i) ∉ (s.msg m).lostRecs) ∨ (c, i) ∈ (s.msg m).droppedRecs ∨ (c, i) ∈ (s.msg m).lostRecs)) := by
-  simp only [accept] at h
+  change acceptCore cfg s.calm _ = _ at h
+  simp only [acceptCore, St.calm_msg] at h
   split at h
   · cases h
   · split at h
@@ -316,7 +320,8 @@ theorem C03_bounce_to_sender (cfg : Cfg) (s s' : St) (hr : Reach cfg s) (m : Nat
     (∃ file, (s.msg m).bounce = some file ∧ isInfix file body = true) ∧
     (s.msg m).loc = none ∧ (s.msg m).rem = none := by
   have hm := (reach_inv cfg s hr).msgs m
-  simp only [accept] at h
+  change acceptCore cfg s.calm _ = _ at h
+  simp only [acceptCore, St.calm_msg] at h
   split at h
   · cases h
   · split at h
@@ -344,7 +349,8 @@ theorem C03_bounce_removed (cfg : Cfg) (s s' : St) (hr : Reach cfg s) (m : Nat) 
     (((s.msg m).lastInject = true ∧ sender ≠ [35, 64, 91, 93]) ∨ sender = [35, 64, 91, 93]) ∧
     (s.msg m).loc = none ∧ (s.msg m).rem = none := by
   have hm := (reach_inv cfg s hr).msgs m
-  simp only [accept] at h
+  change acceptCore cfg s.calm _ = _ at h
+  simp only [acceptCore, St.calm_msg] at h
   split at h
   · cases h
   · split at h
